@@ -44,6 +44,8 @@ type Transfer struct {
 
 // SkyWorld is a bootstrapped bridge with tokens, users and the per-denom ledger model.
 type SkyWorld struct {
+	// OpenBatches is the number of open batches seen at the last block boundary
+	OpenBatches int
 	*Bridge
 	Gov      *Gov
 	Tokens   []*Token
@@ -372,6 +374,7 @@ func (w *SkyWorld) AfterBlock(br *world.BlockResult) []*core.Violation {
 	if len(batches) > 0 {
 		b.R.Stats.Probe("blocks_with_open_batch")
 	}
+	w.OpenBatches = len(batches)
 
 	// 3. newly observed attestations (deposits, executed batches)
 	executedBatches := map[string]bool{}
